@@ -112,6 +112,14 @@ CHECKS["C08"] = ("E3-puppet",
   "at once / after the delay if it persists; the receiver never verifies or finalizes while something is missing.",
   "Timing tolerance 14 ms + 6 tau; the state known to the receiver is taken 3 tau + 3 ms before a NAK reaches the link. Exhaustive only for segment size 16, small file-size flag.",
   "DESIGN.md §5 C08")
+CHECKS["C07"] = ("E3-puppet",
+  "real sending daemon vs a puppet receiver injecting NAKs of any shape at any time (seeded generation + a structured range family); reference model = source bytes + requested byte sets",
+  "Every datagram the sender emits is checked: transaction ids/mode/direction/CRC flag/version, wire length field == payload, file data == source[offset..], length <= segment, inside the file; "
+  "the first pass exists as an in-order tiling before the EOF; every non-tile PDU lies inside a range requested before it; per byte, transmissions = 1 (first pass) + between 1 and the number of "
+  "requested ranges containing it (requests delivered in time); the 0-0 marker is answered by a Metadata PDU identical to the first, never more often than asked; Metadata and EOF state the true names, "
+  "size, checksum type, closure flag and the reference checksum. NAK shapes: plain, duplicated, overlapping, empty, inverted, straddling / beyond EOF, longer than a segment, during the first pass or after EOF.",
+  "Zero-length file-data PDUs are tallied, not judged. Requests arriving less than ~60 ms before the puppet's Finished are not required to be answered. Sampled (tens of thousands of scripts), not exhaustive.",
+  "DESIGN.md §5 C07")
 NOT_YET = {}
 
 def main():
